@@ -738,6 +738,15 @@ theorem logInv_commit {j : Nat} {q : List Nat} (h : LogInv s) (hok : LogOK s (.c
     · cases hs
   · cases hs
 
+theorem logInv_coordWrite {c : Cmd} {size : Nat} (h : LogInv s) (hs : doCoordWrite s c size = some s') : LogInv s' := by
+  unfold doCoordWrite at hs
+  split at hs
+  · split at hs
+    · rename_i s1 hp
+      cases hs; exact logInv_propose h hp
+    · cases hs; exact h
+  · cases hs; exact h
+
 /-- the log invariant holds after every allowed step -/
 theorem logInv_step {o : Op} (h : LogInv s) (hok : LogOK s o = true) (hs : step s o = some s') : LogInv s' := by
   cases o <;> simp only [step] at hs
@@ -760,6 +769,7 @@ theorem logInv_step {o : Op} (h : LogInv s) (hok : LogOK s o = true) (hs : step 
   · exact logInv_metaUp h hs
   · exact logInv_elect h hs
   · exact logInv_setMaster h hs
+  · exact logInv_coordWrite h hs
 
 /-- a run all of whose steps are allowed -/
 def runOK (ok : State → Op → Bool) (s : State) : List Op → Bool
